@@ -134,8 +134,7 @@ impl<'w> Ctx<'w> {
                         return Ok(e(s.clone(), t.clone()));
                     }
                     if s == "None" {
-                        let iv = self.new_ivar();
-                        return Ok(e("Option.none", Ty::Opt(Box::new(iv))));
+                        return Ok(e("Option.none", Ty::Opt(Box::new(Ty::Any))));
                     }
                 }
                 // Enum::Variant, u32::MAX, Ordering::Equal, Bound::Unbounded
@@ -455,6 +454,12 @@ impl<'w> Ctx<'w> {
                 Ok(e(self.size_of(&t)?.to_string(), Ty::U(64)))
             }
             "mem::transmute" | "std::mem::transmute" | "transmute" => self.expr(&c.args[0]), // lifetime extension only
+            "crate::transmute_entry_to_static" | "transmute_entry_to_static" => {
+                // lifetime extension of a (key, value) pair
+                let a = self.expr(&c.args[0])?;
+                let b = self.expr(&c.args[1])?;
+                Ok(E { s: format!("({}, {})", a.s, b.s), ty: Ty::Tuple(vec![a.ty, b.ty]), eff: a.eff || b.eff })
+            }
             "SeekFrom::End" => {
                 let a = self.expr(&c.args[0])?;
                 self.unify(&a.ty, &Ty::I(64))?;
@@ -498,9 +503,15 @@ impl<'w> Ctx<'w> {
                 backs.push(self.place_of(a).ok_or("&mut argument is not a place")?);
             }
         }
-        let call = format!("{} {}", sig.lean, argv.join(" "));
+        if sig.uses_step {
+            self.used_step = true;
+            argv.insert(0, "step".into());
+        }
+        // fully qualified: inside `def T.f` the namespace `T` is open and a field of `T` may carry the callee's name
+        let call = format!("Grenad.Gen.{} {}", sig.lean, argv.join(" "));
+        let ret_ty = if sig.ret_is_res { Ty::Res(Box::new(sig.ret.clone())) } else { sig.ret.clone() };
         if backs.is_empty() {
-            return Ok(E { s: format!("(← {})", call), ty: sig.ret.clone(), eff: true });
+            return Ok(E { s: format!("(← {})", call), ty: ret_ty, eff: true });
         }
         // let (r, m1, m2) ← call; m1-place := m1; ...
         let r = self.fresh("r");
@@ -517,7 +528,7 @@ impl<'w> Ctx<'w> {
         let pat = if names.len() == 1 { names[0].clone() } else { format!("({})", names.join(", ")) };
         self.pre.push(format!("let {} ← {}", pat, call));
         self.pre.extend(writes);
-        Ok(E { s: if sig.ret == Ty::Unit { "()".into() } else { r }, ty: sig.ret.clone(), eff: false })
+        Ok(E { s: if sig.ret == Ty::Unit { "()".into() } else { r }, ty: ret_ty, eff: false })
     }
 
     fn method(&mut self, m: &ExprMethodCall) -> R<E> {
@@ -591,6 +602,32 @@ impl<'w> Ctx<'w> {
                     }
                     return Err(format!("extend({}) is outside the subset", short(&txt)));
                 }
+                (Ty::Cursor, "move_on_first" | "move_on_last" | "move_on_next" | "move_on_prev" | "current"
+                    | "move_on_key_greater_than_or_equal_to" | "move_on_key_lower_than_or_equal_to") => {
+                    // a call on the external cursor: one application of `step`, the new cursor written back
+                    let op = match name.as_str() {
+                        "move_on_first" => "CurOp.first".to_string(),
+                        "move_on_last" => "CurOp.last".to_string(),
+                        "move_on_next" => "CurOp.next".to_string(),
+                        "move_on_prev" => "CurOp.prev".to_string(),
+                        "current" => "CurOp.current".to_string(),
+                        other => {
+                            let a = self.expr(args[0])?;
+                            if self.resolve(&a.ty) != Ty::Bytes { return Err("cursor seek with a non-byte key".into()); }
+                            if a.eff { return Err("effectful cursor seek key".into()); }
+                            format!("(CurOp.{} {})", if other.contains("greater") { "ge" } else { "le" }, paren(&a.s))
+                        }
+                    };
+                    self.used_step = true;
+                    let (c2, r) = (self.fresh("c"), self.fresh("r"));
+                    self.pre.push(format!("let ({}, {}) := step {} {}", c2, r, cur, op));
+                    let w = self.place_write(&p, &c2);
+                    self.pre.push(w);
+                    let inner = Ty::Opt(Box::new(Ty::Tuple(vec![Ty::Bytes, Ty::Bytes])));
+                    // `current()` returns the Option itself, the moves a `Result` of it
+                    let ty = if name == "current" { inner } else { Ty::Res(Box::new(inner)) };
+                    return Ok(E { s: format!("(← liftCur {})", r), ty, eff: true });
+                }
                 (Ty::Src, "seek") => {
                     let a = self.expr(args[0])?;
                     if a.ty != Ty::Named("SeekFromEnd".into()) {
@@ -641,7 +678,11 @@ impl<'w> Ctx<'w> {
                     if self.is_int(pty) { self.unify(&v.ty, pty)?; }
                     argv.push(paren(&v.s));
                 }
-                return Ok(E { s: format!("(← {} {})", sig.lean, argv.join(" ")), ty: sig.ret.clone(), eff: true });
+                if sig.uses_step {
+                    self.used_step = true;
+                    argv.insert(0, "step".into());
+                }
+                return Ok(E { s: format!("(← Grenad.Gen.{} {})", sig.lean, argv.join(" ")), ty: sig.ret.clone(), eff: true });
             }
         }
         match (rt.clone(), name.as_str()) {
@@ -722,6 +763,10 @@ impl<'w> Ctx<'w> {
                 Ok(E { s: format!("{}[{}]?", paren(&recv.s), a.s), ty: Ty::Opt(t), eff: eff || a.eff })
             }
             (Ty::Named(_), "borrow") => Ok(recv), // B: Borrow<Block>
+            (Ty::Tuple(ts), "start_bound" | "end_bound") if ts.len() == 2 && matches!(ts[0], Ty::Bound(_)) => {
+                let (proj, t) = if name == "start_bound" { ("1", ts[0].clone()) } else { ("2", ts[1].clone()) };
+                Ok(E { s: format!("{}.{}", paren(&recv.s), proj), ty: t, eff })
+            }
             (Ty::List(t), "binary_search") if self.is_int(&t) => {
                 let a = self.expr(args[0])?;
                 self.unify(&a.ty, &t)?;
